@@ -8,6 +8,7 @@ import (
 	"path/filepath"
 	"regexp"
 	"runtime"
+	"runtime/pprof"
 	"sort"
 	"strconv"
 	"strings"
@@ -224,6 +225,11 @@ func WorkerMain(hs []*Harness) int {
 					fmt.Println("  " + l)
 				}
 			}
+		}
+		if os.Getenv("VERIF_GDUMP") != "" {
+			// leak hunting: what is still alive after n runs
+			fmt.Printf("GOROUTINES %d\n", runtime.NumGoroutine())
+			_ = pprof.Lookup("goroutine").WriteTo(os.Stdout, 1)
 		}
 		return 0
 	}
